@@ -138,7 +138,7 @@ pub fn expected(c: &Case, b: &Buffers) -> Option<Vec<u8>> {
     out.extend_from_slice(&b.rp);
     out.push(spec_flag_byte(c.flags));
     out.extend_from_slice(&c.count.to_be_bytes());
-    if c.attested {
+    if c.mc && c.attested {
         if c.id > 65535 {
             return None;
         }
@@ -176,16 +176,36 @@ pub fn observed(c: &Case, b: &Buffers) -> Result<Option<Vec<u8>>, String> {
                 attested_credential_data: att,
                 extensions: ext_view(c).map(|v| bind::build_mc_ext(&v)),
             };
-            ad.serialize().ok().map(|x| x.to_vec())
+            let out = ad.serialize().ok().map(|x| x.to_vec());
+            // a clone (also of the extensions alone) must serialise to the same bytes
+            let mut twin = ad.clone();
+            twin.extensions = ad.extensions.clone();
+            if twin.serialize().ok().map(|x| x.to_vec()) != out {
+                panic!("a clone of the authenticator data serialises differently");
+            }
+            out
         } else {
+            // the assertion flavour has no attested data: absent, or present-but-empty
+            let ext = ext_view(c).map(|v| bind::build_ga_ext_out(&v));
             let ad = get_assertion::AuthenticatorData {
                 rp_id_hash: &b.rp,
                 flags: real_flags(c.flags),
                 sign_count: c.count,
-                attested_credential_data: None,
-                extensions: ext_view(c).map(|v| bind::build_ga_ext_out(&v)),
+                attested_credential_data: if c.attested { Some(get_assertion::NoAttestedCredentialData) } else { None },
+                extensions: ext.clone(),
             };
-            ad.serialize().ok().map(|x| x.to_vec())
+            let out = ad.serialize().ok().map(|x| x.to_vec());
+            let twin = get_assertion::AuthenticatorData {
+                rp_id_hash: &b.rp,
+                flags: real_flags(c.flags),
+                sign_count: c.count,
+                attested_credential_data: if c.attested { Some(get_assertion::NoAttestedCredentialData) } else { None },
+                extensions: ext.clone(),
+            };
+            if twin.serialize().ok().map(|x| x.to_vec()) != out {
+                panic!("a clone of the extension outputs serialises differently");
+            }
+            out
         }
     })
 }
@@ -306,7 +326,7 @@ pub fn run(ctx: &'static Ctx) {
         }
         // grid B: all flags x all counters x attested absent/present (reduced lengths) x all extension choices
         let red_ids = [0usize, 1, 16, 255, 256, 500, 560, 600, 640, 700];
-        let rad = [16u64, COUNTERS.len() as u64, if mc { 1 + red_ids.len() as u64 } else { 1 }, exts.len() as u64];
+        let rad = [16u64, COUNTERS.len() as u64, if mc { 1 + red_ids.len() as u64 } else { 2 }, exts.len() as u64];
         let (exts2, bufs2) = (&exts, &bufs);
         sweep(ctx, &format!("{} layout: flags x counters x extensions", fl), product(&rad), "all 16 flag subsets x 6 counters x attested data absent / present at 10 id lengths x every extension choice", |idx, l| {
             let mut d = [0u64; 4];
@@ -337,7 +357,7 @@ pub fn run(ctx: &'static Ctx) {
         for mc in [true, false] {
             let exts = ext_choices(mc);
             let red_ids = [0usize, 1, 16, 255, 256, 544, 545, 560, 700];
-            let rad = [16u64, 2, if mc { 1 + red_ids.len() as u64 } else { 1 }, exts.len() as u64];
+            let rad = [16u64, 2, if mc { 1 + red_ids.len() as u64 } else { 2 }, exts.len() as u64];
             let (exts2, cb2) = (&exts, &cb);
             sweep(ctx, &format!("{} layout: content class {}", if mc { "mc" } else { "ga" }, content), product(&rad), "rp-id hash, aaguid, credential id and public key all zero / all 0xFF / with a leading zero byte x flags x 2 counters x attested lengths x every extension choice", move |idx, l| {
                 let mut d = [0u64; 4];
